@@ -52,6 +52,9 @@ MODELS = {
     "conn_guided5": ("MC_Conn.tla", "MC_Conn_guided5.cfg", 7200, ["body_delivered", "continue", "size_limit", "pipelined", "partial_body"]),
     # free sender (any template after any), 4 lines out of 12 templates
     "conn_free4": ("MC_Conn.tla", "MC_Conn_free4.cfg", 7200, ["bad_method", "bad_format", "cr_lf_split", "body_delivered"]),
+    # descriptors passed to the server over the socket: conservation / ownership through reads, yields, 400s, closes, sweeps
+    "srv_fdsq": ("MC_Server.tla", "MC_Server_fdsq.cfg", 1200, ["files_yielded", "files_on_closed_conn", "files_glued_read", "discard_on_error", "fd_reused", "closed_with_inflight"]),
+    "srv_fds": ("MC_Server.tla", "MC_Server_fds.cfg", 3600, ["files_yielded", "files_on_closed_conn", "files_glued_read", "discard_on_error", "fd_reused", "pipelined_yield"]),
     # descriptors arriving with reads (C12)
     "conn_files": ("MC_Conn.tla", "MC_Conn_files.cfg", 1800, ["files_delivered", "body_delivered", "pipelined"]),
 }
@@ -500,7 +503,10 @@ def conn_property(pid, tier, seed, models, drivers, assumptions, design_ref, ext
             violations.append((sig, V.save_replay(pid, {"property": pid, "level": "conn", "build": "small", "script": script, "signature": sig, "mismatch": m})))
     sres = []
     for i, (kind, domain, nq, nt) in enumerate(extra_srv):
-        sr = srv_conformance(pid, tier, seed, kind, domain, nq if tier == "quick" else nt, "%s-srv-%s-%d" % (pid, kind, i))
+        if kind == "gen":
+            sr = gen_srv_replay(pid, tier, seed, domain)
+        else:
+            sr = srv_conformance(pid, tier, seed, kind, domain, nq if tier == "quick" else nt, "%s-srv-%s-%d" % (pid, kind, i))
         sres.append(sr)
         if sr["crashes"]:
             raise V.ToolError("server driver %s in domain %s" % (sr["crashes"][0]["how"], sr["domain"]))
@@ -569,7 +575,8 @@ TABLE = {
                                             extra_srv=[("full", "C07pipe", 150, 1500)]),
     "C11": lambda tier, seed: conn_property("C11", tier, seed, conn_models(tier), [("full", "C11"), ("small", "C11")], CONN_ASSUME, "DESIGN.md 6 C11",
                                             extra_srv=[("full", "C09", 150, 1500)], gen_replay=True),
-    "C12": lambda tier, seed: conn_property("C12", tier, seed, ["conn_files"], [("full", "C12")], CONN_ASSUME, "DESIGN.md 6 C12"),
+    "C12": lambda tier, seed: conn_property("C12", tier, seed, ["conn_files", "srv_fdsq" if tier == "quick" else "srv_fds"], [("full", "C12")], CONN_ASSUME, "DESIGN.md 6 C12",
+                                            extra_srv=[("small", "C12srv", 150, 1500), ("full", "C12srv", 100, 1000), ("gen", "Gen_Srv_fds.cfg", 0, 0)]),
     "C13": lambda tier, seed: conn_property("C13", tier, seed, conn_models(tier), [("full", "C13"), ("small", "C13")], CONN_ASSUME, "DESIGN.md 6 C13",
                                             extra_srv=[("full", "C08", 200, 2000)], gen_replay=True),
 }
@@ -599,6 +606,7 @@ SRV_PROJ = {
     "C10": r"^(capacity:|fds:|sweep:|eof:|bytes:|pollerr:)",
     "C18": r"^(kill:|ready:|pollerr:|batch:|hang)",
     "C04": r"^(bytes:|yield:)",
+    "C12": r"^(files:|fds:count)",
     "C06": r"^(bytes:differ|bytes:extra)",
     "C11": r"^(bytes:|yield:)",
     "C13": r"^(bytes:|yield:|ready:stall)",
